@@ -19,7 +19,9 @@ def can_glue(a, b):
 
 def comment_text(r):
     return "#" + r.choice(["", " c", " if then else end", " 'quote", " \"dq", " // pat", " do <<", "#", " é", " x = 1;", "\t",
-                           " a; nosuch_name(", "; error 'from comment';", " ) ] end", " \\", " tab\tinside"])
+                           " a; nosuch_name(", "; error 'from comment';", " ) ] end", " \\", " tab\tinside",
+                           " was: \x0c nosuch_a(", " vt \x0b error 'vt';", " fs \x1c; nosuch_b", " nel \x85 nosuch_c(1)", " ls \u2028 error 'ls'",
+                           " ps \u2029 ) end"])
 
 
 def separator(r, mode, a, b):
